@@ -1,7 +1,6 @@
 JOBS = [
     dict(name='level', src='c16.cpp', fn='h_level', defines={'QM_STR_CAP': 12}, timeout=120),
-    dict(name='dup_seq', src='c16.cpp', fn='h_dup_seq', defines={'QM_STR_CAP': 12, 'VF_N': 3}, defines_thorough={'VF_N': 5}, timeout=300),
-    dict(name='dup_step', src='c16.cpp', fn='h_dup_step', defines={'QM_STR_CAP': 12}, timeout=300),
+    dict(name='dup_seq', src='c16.cpp', fn='h_dup_seq', defines={'QM_STR_CAP': 12, 'VF_N': 4}, defines_thorough={'VF_N': 6, 'VF_SLEN': 3}, timeout=300),
     dict(name='seq_shared', src='c16.cpp', fn='h_seq_shared', defines={'QM_STR_CAP': 12, 'VF_N': 3}, defines_thorough={'VF_N': 4}, timeout=300),
     dict(name='seq_step', src='c16.cpp', fn='h_seq_step', defines={'QM_STR_CAP': 12}, timeout=300),
     dict(name='seq_at_max', src='c16.cpp', fn='h_seq_at_max', defines={'QM_STR_CAP': 12}, timeout=300),
